@@ -129,8 +129,10 @@ def defs_at(n: Node, fn_node: ast.AST) -> List[Def]:
             c = a.value
             if c.func.attr in MUTATORS:
                 root = c.func.value
-                while isinstance(root, (ast.Subscript, ast.Attribute)):
-                    root = root.value
+                # X[k].append(v) / X.a.append(v) / X.setdefault(k, []).append(v) / X.get(k).append(v): a weak update of X
+                while isinstance(root, (ast.Subscript, ast.Attribute)) or (
+                        isinstance(root, ast.Call) and isinstance(root.func, ast.Attribute) and root.func.attr in ("setdefault", "get")):
+                    root = root.func.value if isinstance(root, ast.Call) else root.value
                 if isinstance(root, ast.Name):
                     val = ast.Tuple(elts=list(c.args) + [k.value for k in c.keywords], ctx=ast.Load())
                     out.append(Def(root.id, n, val, "mutate", c))
